@@ -133,6 +133,8 @@ def obligations(prop, extra_targets=()):
         ob["driver_log"] = log_d[-3000:]
     targets = ["FormulaeModel.Properties.Tie", f"FormulaeModel.Properties.{prop}"] + list(
         extra_targets)
+    if prop in ("C04", "C13"):  # their audits also list the bridge between the two coding models
+        targets.append("FormulaeModel.Properties.Bridge")
     ok_b, log_b = lake_build(targets)
     ob["build_ok"] = ok_b
     if not ok_b:
